@@ -97,8 +97,14 @@ def ex_case(ctx, case, test="L", num_sim=5, seed=1, inject=False, layout="C", sc
                                    "scale": scale_tag, "pre": pre}}
     n_obs = int(w.sum())
     kw = {"num_simulations": num_sim, "seed": seed}
+    zero_draws = 0
     if inject and test != "L":
         kw["random_numbers"] = numpy.random.default_rng([seed, 5]).uniform(0, 1, (num_sim, n_obs))
+        if seed % 3 == 0 and n_obs:
+            # the smallest legal uniform number, 0.0, for the first event(s) of every simulation: it belongs to the first bin with a positive
+            # rate, whatever the rates are - the one placement that needs no arithmetic to predict (boundary placement in general is C06's)
+            zero_draws = 1 + (seed // 3) % min(n_obs, 2)
+            kw["random_numbers"][:, :zero_draws] = 0.0
     has_zero = bool(numpy.any(lam == 0))
     ev_in_zero = bool(numpy.any((numpy.asarray(lam) == 0) & (numpy.asarray(wobs) > 0)))
     tags = {"test": test, "layout": layout, "zero_bins": has_zero, "event_in_zero_bin": ev_in_zero, "n_obs": min(n_obs, 3),
@@ -139,6 +145,15 @@ def ex_case(ctx, case, test="L", num_sim=5, seed=1, inject=False, layout="C", sc
             ctx.violate("simulated catalog j does not hold the number of events that was prescribed for it", rc,
                         observed={"j": j, "events": float(simw.sum())}, expected=entry["n"], tags=dict(tags, clause="sim-count", prescribed_zero=entry["n"] == 0))
             break
+        if zero_draws:
+            flat, lamf = simw.ravel(), numpy.asarray(lam, dtype=float).ravel()
+            first_pos = int(numpy.nonzero(lamf > 0)[0][0]) if (lamf > 0).any() else None
+            ctx.mon("trace:draw-0.0-lands-in-first-positive-rate-bin", 1)
+            if first_pos is not None and flat[first_pos] < zero_draws:
+                ctx.violate("a simulated event drawn with the uniform number 0.0 is not in the first bin with a positive rate", rc,
+                            observed={"j": j, "count_there": float(flat[first_pos]), "nonzero_bins": numpy.nonzero(flat)[0][:6]},
+                            expected={"first_positive_rate_bin": first_pos, "at_least": zero_draws}, tags=dict(tags, clause="zero-draw", leading_zero_rate_bins=first_pos))
+                break
         rj, sj = gridcases.poisson_ll(lam, simw)
         ctx.mon("trace:test_distribution[j]~simulated_catalog[j]", 1)
         v = float(val)
